@@ -545,9 +545,10 @@ def run_service(ctx, sv, nframes, st, nbatches):
         conns = [[] for _ in range(ncon)]
         for i in range(n):
             conns[rng.randrange(ncon)].append(i)
-        # frames that end the connection (undecodable header / envelope) go last on it, all but one of them
+        # frames that end the connection (undecodable header / envelope) go last on it; in some batches one
+        # of them stays where it is, so that what follows a dead connection (nothing) is observed too
         enders = [i for i in range(n) if parse_request(frames[i]["frame"]) is None]
-        keep_inside = set(enders[:1])
+        keep_inside = set(enders[:1]) if rng.random() < 0.3 else set()
         conns = [[i for i in c if i not in enders or i in keep_inside] + [i for i in c if i in enders and i not in keep_inside]
                  for c in conns]
         conns = [(c, rng.choice([0, 0, 1, 7])) for c in conns if c]
